@@ -8,6 +8,7 @@ package main
 // variable"; nothing is executed.
 
 import (
+	"os"
 	"fmt"
 	"go/constant"
 	"go/token"
@@ -41,6 +42,9 @@ type dtConfig struct {
 	Leaf    func(b *ssa.BasicBlock) (string, bool) // effect reached in this block?
 	TagOf   func(cond ssa.Value) string            // label for a non-variable condition ("" = untagged fork)
 	Max     int
+	// CallSet, when set, evaluates a call whose truth depends on the variable alone (unicode.Is(table, v), …): the
+	// subset of the domain on which it is true
+	CallSet func(c *ssa.Call) (*relang.Set, bool)
 }
 
 func cmpSplit(op token.Token, k int64, s *relang.Set, varOnLeft bool) (t, f *relang.Set) {
@@ -150,7 +154,7 @@ func decisionTable(start *ssa.BasicBlock, cfg dtConfig) []dtLeaf {
 					fy, _ := derive(c.Y, cfg, 0)
 					_, xc := constInt(c.X)
 					_, yc := constInt(c.Y)
-					if (fx != nil || xc) && (fy != nil || yc) && !(xc && yc) && s.Count() <= 70000 {
+					if (fx != nil || xc) && (fy != nil || yc) && !(xc && yc) && s.Count() <= 1200000 {
 						return splitElementwise(c, s, fx, fy)
 					}
 				}
@@ -182,6 +186,11 @@ func decisionTable(start *ssa.BasicBlock, cfg dtConfig) []dtLeaf {
 				}
 			}
 		case *ssa.Call:
+			if cfg.CallSet != nil {
+				if ts, ok := cfg.CallSet(c); ok {
+					return s.Intersect(ts), s.Minus(ts), true
+				}
+			}
 			// a predicate parameter bound to a byte set for this summary
 			if !c.Common().IsInvoke() && len(c.Common().Args) == 1 && (strip(c.Common().Args[0]) == cfg.Var || cfg.Aliases[strip(c.Common().Args[0])]) {
 				if ts, ok := paramSetOf(c.Common().Value); ok {
@@ -191,11 +200,14 @@ func decisionTable(start *ssa.BasicBlock, cfg dtConfig) []dtLeaf {
 			// a pure byte predicate of the repository applied to the variable: use its own table
 			if g := staticCallee(c.Common()); g != nil && g.Blocks != nil && len(g.Params) == 1 && len(c.Common().Args) == 1 && strip(c.Common().Args[0]) == cfg.Var &&
 				g.Pkg != nil && strings.HasPrefix(g.Pkg.Pkg.Path(), modulePath) && depth < 4 {
-				sub := decisionTable(g.Blocks[0], dtConfig{Var: g.Params[0], Dom: s, Leaf: func(*ssa.BasicBlock) (string, bool) { return "", false }, Max: 500})
+				sub := decisionTable(g.Blocks[0], dtConfig{Var: g.Params[0], Dom: s, Leaf: func(*ssa.BasicBlock) (string, bool) { return "", false }, Max: 500, CallSet: cfg.CallSet, Tables: cfg.Tables})
 				okSub := true
 				for _, l := range sub {
 					if l.Effect != "return:true" && l.Effect != "return:false" {
 						okSub = false
+						if os.Getenv("DT_DEBUG") != "" {
+							fmt.Printf("DT sub %s: leaf %s set=%s tags=%v\n", g.Name(), l.Effect, l.Set, l.Tags)
+						}
 					}
 				}
 				if okSub {
